@@ -78,7 +78,7 @@ T = {
 }
 
 # checks that are finished (others may exist as files while still under construction)
-READY = ["C01", "C02", "C03", "C04", "C05", "C06", "C07", "C08", "C09", "C10", "C11", "C12", "C13", "C14", "C15", "C17", "C18", "C20"]
+READY = ["C01", "C02", "C03", "C04", "C05", "C06", "C07", "C08", "C09", "C10", "C11", "C12", "C13", "C14", "C15", "C17", "C18", "C19", "C20"]
 
 NA = {
     "C16": ("URI <-> option conversion is a pure function of its input: no schedule, clock, fault, crash point or "
